@@ -357,6 +357,13 @@ impl<'a> Builder<'a> {
             if o.dst.is_empty() {
                 continue;
             }
+            if o.dst.len() > 1
+                && child.variables.get(&o.id).and_then(|v| v.r#type.array.total()).unwrap_or(1) > 1
+            {
+                // an unpacked-array port connected to an array slice is wired element by element, not as a
+                // concatenation
+                return Err("element-wise array output connection of an instance".into());
+            }
             let Some(src) = built.out_terms.get(&o.id).cloned() else {
                 return Err("instance output: child port has no term".into());
             };
@@ -420,6 +427,10 @@ impl<'a> Builder<'a> {
     // ---- expressions -----------------------------------------------------
 
     fn expr(&mut self, e: &Expression, env: &Env, ff: bool) -> R<V> {
+        if matches!(e, Expression::Ternary(..)) && e.comptime().r#type.is_unknown() {
+            // e.g. a ternary whose condition is wider than one bit: accepted with a warning, no usable type
+            return Err("expression the analyzer could not type (accepted with a warning)".into());
+        }
         match e {
             Expression::Term(f) => self.factor(f, env, ff),
             Expression::Unary(op, x, ct) => {
@@ -450,10 +461,13 @@ impl<'a> Builder<'a> {
                 let cv = self.expr(c, env, ff)?;
                 let av = self.expr(a, env, ff)?;
                 let bv_ = self.expr(b, env, ff)?;
+                // signedness of the result comes from the analyzer's contexts of the two branches (trusted input, as
+                // for binary operators); each branch is extended by its own signedness
+                let ctx_signed = a.comptime().expr_context.signed && b.comptime().expr_context.signed;
                 let signed = av.signed && bv_.signed;
                 let w = av.t.w.max(bv_.t.w).max(ct.expr_context.width);
-                let at = self.resize(&av.t, w, signed && av.signed);
-                let bt = self.resize(&bv_.t, w, signed && bv_.signed);
+                let at = self.resize(&av.t, w, ctx_signed && av.signed);
+                let bt = self.resize(&bv_.t, w, ctx_signed && bv_.signed);
                 let c = self.nonzero(&cv.t);
                 let t = self.ite(&c, &at, &bt);
                 Ok(V { t, signed })
